@@ -460,6 +460,8 @@ def resolve(e, env, depth=0):
         return ("bin", e["op"], resolve(e["left"], env, depth + 1), resolve(e["right"], env, depth + 1))
     if k == "Tuple":
         return ("tuple", tuple(resolve(x, env, depth + 1) for x in e["elems"]))
+    if k == "Array":
+        return ("array", tuple(resolve(x, env, depth + 1) for x in e["elems"]))
     if k == "Struct":
         return (
             "ctor",
@@ -622,6 +624,8 @@ def show(p):
         return f"{p[1]}{show(p[2])}"
     if t == "tuple":
         return "(" + ", ".join(show(a) for a in p[1]) + ")"
+    if t == "array":
+        return "[" + ", ".join(show(a) for a in p[1]) + "]"
     if t == "proj":
         return f"{show(p[1])}.{p[2]}"
     if t == "ctor":
@@ -663,7 +667,7 @@ def subterms(p):
         return [p[1], p[2]]
     if t == "bin":
         return [p[2], p[3]]
-    if t == "tuple":
+    if t in ("tuple", "array"):
         return list(p[1])
     if t == "ctor":
         return [v for _, v in p[2]]
